@@ -246,8 +246,8 @@ def main(argv=None):
     # ---- report -------------------------------------------------------------------------------
     print(f"[{prop}/{tier}] seed={seed} shards={len(reports)}/{nshards} cases={m['counters'].get('cases', 0)} "
           f"judged={m['evaluations']} distinct_nontrivial={len(m['nontrivial'])} wall={wall:.1f}s engine={observed['engine']}")
-    top = sorted(((k, v) for k, v in m["counters"].items() if k.startswith(("judged:", "contract:", "reach:"))), key=lambda kv: kv[0])
-    for k, v in top[:40]:
+    top = sorted(((k, v) for k, v in m["counters"].items() if k.startswith(("judged:", "contract:", "reach:") + (("count:", "redefine:") if os.environ.get("VERIF_SHOW_COUNTS") else ()))), key=lambda kv: kv[0])
+    for k, v in top[:80]:
         print(f"    {k} = {v}")
     for key, n, what in known_lines:
         print(f"KNOWN-FINDING: property={prop} {key}: {what} (observed {n}x in this run)")
